@@ -122,6 +122,24 @@ var sources = []string{
 	"T | join kind=aaa (U | join kind=bbb (V) on k) on k | join kind=ccc (W) on k",
 	"let a = u1; let b = u2; let c = u3; T | where u4 == u5",
 	"T | take 1.5 | take 2.5 | top 3.5 by a | limit 'x'",
+	// one mistake through every spelling that shares its code with another (the
+	// message names the spelling that was written, whichever came first in the process)
+	"T | where iff(a > 1, 2)",
+	"T | extend c = iif(a)",
+	"T | where iif(a > 1, 2)",
+	"T | extend c = iff(a)",
+	"T | where tolower() == 'a'",
+	"T | where toupper() == 'A'",
+	"T | where isnull()",
+	"T | where isnotnull()",
+	"T | where count(1) > 0",
+	"T | where countif() > 0",
+	"T | limit 1.5",
+	"T | take 'x'",
+	"T | filter (",
+	"T | order by",
+	"T | sort by",
+	"T | where now(1) > 0 | where not() | where strcat() == ''",
 }
 
 func init() {
